@@ -27,6 +27,12 @@ package parquet
 // every row group carries its column map.
 //@ pred metaOK(m) := m != nil && m.ts != nil && (forall k in 0..#m.rowGroups: m.rowGroups[k].columns != nil && ref(m.rowGroups[k].rowGroup.Columns) == 0)
 
+// C06: row accounting. The last row group is the open one; closed groups never change.
+//@ pred lastRows(m) := m.rowGroups[#m.rowGroups - 1].rowGroup.NumRows
+//@ pred closedSame(m) := forall k in 0..#m.rowGroups - 1: m.rowGroups[k].rowGroup.NumRows == old(m.rowGroups[k].rowGroup.NumRows)
+//@ pred mInv(m) := metaOK(m) && #m.rowGroups >= 1 && m.rowGroupDocs >= 0
+//@ pred pageWritten(m) := #m.rowGroups == old(#m.rowGroups) && m.rowGroupDocs == old(m.rowGroupDocs) && lastRows(m) == m.rowGroupDocs && closedSame(m)
+
 //@ func (*writeCounter).Write
 //@   requires w != nil && isBB(w.w)
 //@   requires[C13] live(asBB(w.w).B)
@@ -59,27 +65,31 @@ package parquet
 //@ func (*Metadata).updateRowGroup
 //@   requires metaOK(m)
 //@   ensures metaOK(m) && m.rowGroups == old(m.rowGroups)
+//@   ensures[C06] #m.rowGroups >= 1 ==> err == nil ==> pageWritten(m)
 //@   modifies HA(m.rowGroups), heap("sch.ColumnMetaData"), heap("map[string]sch.ColumnChunk")
 
 //@ func (*Metadata).WritePageHeader
 //@   requires metaOK(m) && external(w)
 //@   ensures metaOK(m) && m.rowGroups == old(m.rowGroups)
-//@   modifies m, HA(m.rowGroups), heap("sch.ColumnMetaData"), heap("map[string]sch.ColumnChunk"), wfault
+//@   ensures[C06] #m.rowGroups >= 1 && err == nil ==> pageWritten(m)
+//@   modifies m, HA(m.rowGroups), heap("sch.ColumnMetaData"), heap("map[string]sch.ColumnChunk"), wfault, snkPos
 //@   ensures[C09] err == nil ==> (wfault ==> old(wfault))
 
 //@ func (*RequiredField).DoWrite
 //@   requires f != nil && metaOK(meta) && external(w)
 //@   requires[C13] live(vals)
 //@   ensures metaOK(meta) && meta.rowGroups == old(meta.rowGroups)
-//@   modifies meta, HA(meta.rowGroups), heap("sch.ColumnMetaData"), heap("map[string]sch.ColumnChunk"), wfault, relArr
+//@   ensures[C06] #meta.rowGroups >= 1 && err == nil ==> pageWritten(meta)
+//@   modifies meta, HA(meta.rowGroups), heap("sch.ColumnMetaData"), heap("map[string]sch.ColumnChunk"), wfault, snkPos, relArr
 //@   ensures[C09] err == nil ==> (wfault ==> old(wfault))
 
 //@ func (*OptionalField).DoWrite
 //@   requires f != nil && metaOK(meta) && external(w)
 //@   requires[C13] live(vals)
 //@   ensures metaOK(meta) && meta.rowGroups == old(meta.rowGroups)
+//@   ensures[C06] #meta.rowGroups >= 1 && err == nil ==> pageWritten(meta)
 //@   free-requires 1 <= f.MaxLevels.Def && f.MaxLevels.Def <= 15 && f.MaxLevels.Rep <= 15 && (f.repeated ==> 1 <= f.MaxLevels.Rep)
-//@   modifies meta, HA(meta.rowGroups), heap("sch.ColumnMetaData"), heap("map[string]sch.ColumnChunk"), wfault, relArr
+//@   modifies meta, HA(meta.rowGroups), heap("sch.ColumnMetaData"), heap("map[string]sch.ColumnChunk"), wfault, snkPos, relArr
 //@   ensures[C09] err == nil ==> (wfault ==> old(wfault))
 
 // ---- footer and schema
@@ -97,12 +107,15 @@ package parquet
 
 //@ func (*Metadata).Footer
 //@   requires metaOK(m) && external(w)
-//@   modifies heap("sch.ColumnMetaData"), heap("sch.SchemaElement"), wfault
+//@   modifies heap("sch.ColumnMetaData"), heap("sch.SchemaElement"), wfault, snkPos, footRows, footGroups
 //@   ensures[C09] err == nil ==> (wfault ==> old(wfault))
+//@   ensures[C06] err == nil ==> footRows == rowsSum(HA(m.rowGroups), off(m.rowGroups), #m.rowGroups) && footGroups == groupsKept(HA(m.rowGroups), off(m.rowGroups), #m.rowGroups)
 //@ loop (*Metadata).Footer#1
-//@   invariant wfault == old(wfault) && freshOrNil(fmd.RowGroups)
+//@   invariant wfault == old(wfault) && snkPos == old(snkPos) && freshOrNil(fmd.RowGroups) && fmd != nil && freshsince(fmd) && 0 <= rangeindex + 1 && rangeindex + 1 <= #m.rowGroups
+//@   invariant[C06] fmd.NumRows == rowsSum(HA(m.rowGroups), off(m.rowGroups), rangeindex + 1) && #fmd.RowGroups == groupsKept(HA(m.rowGroups), off(m.rowGroups), rangeindex + 1)
 //@ loop (*Metadata).Footer#2
-//@   invariant wfault == old(wfault) && freshOrNil(rg.Columns) && freshOrNil(fmd.RowGroups)
+//@   invariant wfault == old(wfault) && snkPos == old(snkPos) && freshOrNil(rg.Columns) && freshOrNil(fmd.RowGroups) && fmd != nil && freshsince(fmd)
+//@   invariant[C06] fmd.NumRows == rowsSum(HA(m.rowGroups), off(m.rowGroups), rangeindex + 1) && #fmd.RowGroups == groupsKept(HA(m.rowGroups), off(m.rowGroups), rangeindex + 1) && rg.NumRows == m.rowGroups[rangeindex + 1].rowGroup.NumRows && rg.NumRows != 0 && rangeindex + 1 < #m.rowGroups
 
 //@ func schemaElements
 //@   modifies nothing
@@ -114,13 +127,18 @@ package parquet
 //@   requires metaOK(m)
 //@   modifies m, HA(m.rowGroups)
 //@   ensures metaOK(m) && sameOrFresh(m.rowGroups)
+//@   ensures[C06] #m.rowGroups == old(#m.rowGroups) + 1 && lastRows(m) == 0 && m.rowGroupDocs == 0 && m.docs == old(m.docs)
+//@   ensures[C06] forall k in 0..old(#m.rowGroups): m.rowGroups[k].rowGroup.NumRows == old(m.rowGroups[k].rowGroup.NumRows)
 
 //@ func New
 //@   modifies nothing
 //@   ensures metaOK(res) && freshsince(res) && freshOrNil(res.rowGroups)
+//@   ensures[C06] #res.rowGroups == 1 && lastRows(res) == 0 && res.rowGroupDocs == 0 && res.docs == 0
 
 //@ func (*Metadata).NextDoc
+//@   requires m != nil
 //@   modifies m
+//@   ensures[C06] m.docs == old(m.docs) + 1 && m.rowGroupDocs == old(m.rowGroupDocs) + 1 && m.rowGroups == old(m.rowGroups) && m.ts == old(m.ts)
 
 //@ functype func(*parquet.RequiredField)
 //@   requires arg0 != nil
